@@ -48,6 +48,26 @@ def ngrams_of(flags):
     return None
 
 
+def compress(kind, data):
+    import bz2, gzip, io, lzma
+    if kind == "gz":
+        b = io.BytesIO()
+        with gzip.GzipFile(fileobj=b, mode="wb", mtime=0, compresslevel=1) as g:
+            g.write(data)
+        return b.getvalue()
+    if kind == "bz2":
+        return bz2.compress(data, 1)
+    return lzma.compress(data, format=lzma.FORMAT_XZ, preset=0)
+
+
+STREAMS = ["gz", "bz2", "xz", "pipe"]
+
+
+def c10gen_compressed_magic(data):
+    """FilePiece looks at the first bytes of what it reads (>= 6 available) for a gzip / bzip2 / xz magic number"""
+    return len(data) >= 6 and (data[:2] == b"\x1f\x8b" or data[:3] == b"BZh" or data[:6] == b"\xfd7zXZ\x00")
+
+
 def family(t):
     return "virtual" if t == "v" else ("probing" if int(t) < 2 else "trie")
 
@@ -171,12 +191,21 @@ def run(ctx):
     base_bytes = [b for _, b in bases]
     cases, meta = [], []       # meta: dict per case
 
-    def add(source, data, names, t, flags=(), label=None):
+    def add(source, data, names, t, flags=(), label=None, transport="plain"):
+        """transport (ARPA text only): plain = a regular file (mmap path of FilePiece); gz / bz2 / xz = a compressed file and
+        pipe = /dev/stdin fed by another process (all four: the read() path, FilePiece::ReadShift)"""
         idx = len(cases)
         p = os.path.join(ctx.scratch, "m%d.%s" % (idx, "arpa" if source == "arpa" else "bin"))
         open(p, "wb").write(data)
-        cases.append((t, p, rng.next() & 0xffffffff, list(flags)))
-        meta.append({"source": source, "mutations": names, "type": t, "flags": list(flags), "path": p, "label": label, "size": len(data)})
+        flags = list(flags)
+        load = p
+        if transport in ("gz", "bz2", "xz"):
+            load = p + "." + transport
+            open(load, "wb").write(compress(transport, data))
+        elif transport == "pipe":
+            flags.append("pipe")
+        cases.append((t, load, rng.next() & 0xffffffff, flags))
+        meta.append({"source": source, "mutations": names, "type": t, "flags": flags, "path": p, "label": label, "size": len(data), "transport": transport})
 
     # corpus first
     cdir = os.path.join(vlib.ROOT, "corpus", "C10")
@@ -192,6 +221,8 @@ def run(ctx):
     for name, data in bases[:2]:
         for t in "012345v":
             add("arpa", data, ["identity"], t, ["enum"], label=name)
+        for tr in STREAMS:
+            add("arpa", data, ["identity", "via:" + tr], rng.choice("012345"), [], label=name, transport=tr)
     # the converter's special spellings in every number position, deterministically, on every run
     for data, name in c10gen.number_token_mutants(bases[0][1]):
         for t in ("0", "2"):
@@ -200,6 +231,9 @@ def run(ctx):
     for data, name in c10gen.long_line_mutants(rng, bases[rng.below(2)][1], ctx.pick(1, 6)):
         for t in (rng.choice("01"), rng.choice("2345")):
             add("arpa", data, [name], t, [])
+            # ... and through the read() path, where the buffer (not the window) has to grow: a compressed file and a pipe
+            for tr in (["pipe", rng.choice(["gz", "bz2", "xz"])] if ctx.quick else STREAMS):
+                add("arpa", data, [name, "via:" + tr], t, [], transport=tr)
     # ARPA mutants
     n_arpa = ctx.pick(600, 30000)
     for _ in range(n_arpa):
@@ -214,6 +248,9 @@ def run(ctx):
             if t != "v" and rng.chance(1, 8):
                 flags.append("build=" + os.path.join(ctx.scratch, "out%d.bin" % len(cases)))
             add("arpa", data, names, t, flags)
+            if rng.chance(1, 8):
+                tr = rng.choice(STREAMS)
+                add("arpa", data, names + ["via:" + tr], t, [f for f in flags if not f.startswith("build=")], transport=tr)
     # binary mutants
     big = ("big", c10gen.render(c10gen.gen_big_model(rng)))
     bins = make_binaries(ctx, bases[:1] + bases[2:2 + ctx.pick(1, 4)] + [big], build_drv)
@@ -289,7 +326,9 @@ def run(ctx):
         mlines, keys = [], {}
         for m in meta:
             data = open(m["path"], "rb").read()
-            if m["source"] == "arpa":
+            if m["source"] == "arpa" and m.get("transport", "plain") != "plain":
+                line = "T %s %s" % ("T" if family(m["type"]) == "trie" else "P", data.hex() or "-")
+            elif m["source"] == "arpa":
                 line = "A %s %s" % ("T" if family(m["type"]) == "trie" else "P", data.hex() or "-")
             else:
                 line = "B %s %d %s" % (m["type"], 1 if ("enum" in m["flags"] or m["type"] == "v") else 0, data.hex() or "-")
@@ -333,7 +372,15 @@ def run(ctx):
                 else:
                     validated += 1
             elif mo.startswith("REJECT "):
-                if c != "exception:" + mo.split()[1]:
+                want = {"exception:" + mo.split()[1]}
+                stream = m.get("transport", "plain") != "plain"
+                if stream and mo == "REJECT EndOfFile":
+                    # on the read() path the end of the input met while skipping white space before a number is only known after
+                    # the read that returns 0, and surfaces as the number parser's exception on the empty rest
+                    want.add("exception:ParseNumber")
+                if stream and m["transport"] == "pipe" and c10gen_compressed_magic(open(m["path"], "rb").read(16)):
+                    unmodelled += 1          # piped bytes that look compressed go to the decompressor
+                elif c not in want:
                     mismatches.append((m, v, mo))
                 else:
                     validated += 1
@@ -374,7 +421,7 @@ def run(ctx):
         data = open(m["path"], "rb").read()
         ctx.report(signature_of(m["source"], m["type"], v), msg,
                    {"source": m["source"], "type": m["type"], "flags": m["flags"], "mutations": m["mutations"], "verdict": v,
-                    "file_z": pack(data), "file_len": len(data), "ngrams_z": ngrams_of(m["flags"])})
+                    "file_z": pack(data), "file_len": len(data), "ngrams_z": ngrams_of(m["flags"]), "transport": m.get("transport", "plain")})
     if not fails:
         if mismatches:
             m, v, mo = mismatches[0]
@@ -382,7 +429,7 @@ def run(ctx):
             ctx.report("correspondence:%s:%s" % (m["source"], family(m["type"])), "extracted loader model and implementation disagree on accept / reject or on the exception class; "
                        "the specification oracle accepts the implementation's behaviour",
                        {"source": m["source"], "type": m["type"], "flags": m["flags"], "mutations": m["mutations"], "verdict": v, "model": mo,
-                        "n_mismatches": len(mismatches), "file_z": pack(data), "ngrams_z": ngrams_of(m["flags"])}, found=False)
+                        "n_mismatches": len(mismatches), "file_z": pack(data), "ngrams_z": ngrams_of(m["flags"]), "transport": m.get("transport", "plain")}, found=False)
         elif model_broken:
             ctx.report("model-broken", "executable model no longer builds", {"log": model_broken[-2000:]}, found=False)
         ctx.report_proof(pres)
@@ -398,6 +445,9 @@ def replay(ctx, obj):
     open(p, "wb").write(unpack(r["file_z"]) if "file_z" in r else bytes.fromhex(r["file_hex"]))
     flags = [f for f in r["flags"] if not f.startswith("build=") and not f.startswith("ngrams=")] + \
             (["build=" + p + ".out"] if any(f.startswith("build=") for f in r["flags"]) else [])
+    if r.get("transport") in ("gz", "bz2", "xz"):
+        open(p + "." + r["transport"], "wb").write(compress(r["transport"], open(p, "rb").read()))
+        p = p + "." + r["transport"]
     if r.get("ngrams_z"):
         open(p + ".ngrams", "wb").write(unpack(r["ngrams_z"]))
         flags.append("ngrams=" + p + ".ngrams")
